@@ -271,6 +271,7 @@ func (e *Environment) Get(name string) (Object, bool) {
 	if ref, ok := e.makeRef(name); ok {
 		return *ref, true
 	}
+	e.getMiss++ // unresolved up the stack: the outcome depends on outer state (the name may get bound later).
 	return nil, false
 }
 
